@@ -62,8 +62,10 @@ def fmtCheck : PRes (List (List UInt8) × List (Nat × List UInt8)) → String
   | .err e => fmtErr08 e
   | .panic => "panic"
 
-def fmtBranch : PRes (List (List UInt8) × Nat) → String
-  | .ok (bs, ix) => "ok " ++ toString ix ++ " " ++ catHex bs
+/-- branch, index and what `auxpow.GetMerkleRoot` makes of them for this txid -/
+def fmtBranch (txid : List UInt8) : PRes (List (List UInt8) × Nat) → String
+  | .ok (bs, ix) => "ok " ++ toString ix ++ " " ++ catHex bs ++ " eval=" ++
+      toHex (branchRoot hashPair08 (List.replicate 32 0) txid bs ix)
   | .err e => fmtErr08 e
   | .panic => "panic"
 
@@ -97,7 +99,7 @@ def stepC08 : List String → String
   | "branch" :: n :: root :: flags :: hashes :: txid :: _ =>
     match nat? n, hexBytes? root, hexBytes? flags, parseHashes08 hashes, hexBytes? txid with
     | some n, some root, some flags, some hs, some txid =>
-      fmtBranch (branchOf hashPair08 maxTx n root (unpackFlags flags) hs txid (fuelFor n hs.length))
+      fmtBranch txid (branchOf hashPair08 maxTx n root (unpackFlags flags) hs txid (fuelFor n hs.length))
     | _, _, _, _, _ => "bad-op"
   | ["nmb", _raws, _elements, _tweak, _ppm, _added, txs, m] =>
     match parseHashes08 txs, parseBits m with
@@ -122,7 +124,7 @@ def stepC08 : List String → String
       if txs.length ≠ m.length ∨ txs.isEmpty then "bad-op" else
       match buildBlock txs m, txs[i]? with
       | some (root, flags, hs), some txid =>
-        fmtBranch (branchOf hashPair08 maxTx txs.length root (unpackFlags flags) hs txid (fuelFor txs.length hs.length))
+        fmtBranch txid (branchOf hashPair08 maxTx txs.length root (unpackFlags flags) hs txid (fuelFor txs.length hs.length))
       | _, _ => "panic"
     | _, _, _ => "bad-op"
   | _ => "bad-op"
